@@ -2,6 +2,7 @@ package protoproducer
 
 import (
 	"bytes"
+	"encoding/json"
 	"fmt"
 	"hash"
 	"hash/fnv"
@@ -173,6 +174,17 @@ func (m *ProtoProducerMessage) mapUnknown() map[string]interface{} {
 	return unkMap
 }
 
+// quoteValue renders a string value between the configured quotes; for JSON (null == true)
+// the value is escaped so that arbitrary bytes still give a well-formed document
+func quoteValue(quotes string, null bool, rendered interface{}) string {
+	if null {
+		if b, err := json.Marshal(fmt.Sprintf("%v", rendered)); err == nil {
+			return string(b)
+		}
+	}
+	return fmt.Sprintf("%s%v%s", quotes, rendered, quotes)
+}
+
 func (m *ProtoProducerMessage) FormatMessageReflectCustom(ext, quotes, sep, sign string, null bool) string {
 	vfm := reflect.ValueOf(m)
 	vfm = reflect.Indirect(vfm)
@@ -240,7 +252,7 @@ func (m *ProtoProducerMessage) FormatMessageReflectCustom(ext, quotes, sep, sign
 					}
 					renderedType := reflect.TypeOf(rendered)
 					if renderedType.Kind() == reflect.String {
-						v += fmt.Sprintf("%s%v%s", quotes, rendered, quotes)
+						v += quoteValue(quotes, null, rendered)
 					} else {
 						v += fmt.Sprintf("%v", rendered)
 					}
@@ -264,7 +276,7 @@ func (m *ProtoProducerMessage) FormatMessageReflectCustom(ext, quotes, sep, sign
 			}
 			renderedType := reflect.TypeOf(rendered)
 			if renderedType.Kind() == reflect.String {
-				fstr[i] = fmt.Sprintf("%s%s%s%s%s%v%s", quotes, fieldFinalName, quotes, sign, quotes, rendered, quotes)
+				fstr[i] = fmt.Sprintf("%s%s%s%s%s", quotes, fieldFinalName, quotes, sign, quoteValue(quotes, null, rendered))
 			} else {
 				fstr[i] = fmt.Sprintf("%s%s%s%s%v", quotes, fieldFinalName, quotes, sign, rendered)
 			}
